@@ -18,7 +18,7 @@ META["C05"] = {
              "condition (every changed leaf must lie under updateMask∩writable or the reset mask) and the rejection rules. Exploration level: the input space "
              "is unbounded, the harness samples it densely near the documented corner cases and reports class counts."),
     "note": "Trusts the harness reference (lib/refmask.go) and protobuf-go reflection/Equal/Clone; update masks strictly broader than the writable fields are accepted-with-frame-intact or rejected (both allowed); presence of empty intermediate messages on mask paths is ignored; negative zero floats are not generated (protobuf-go Clone drops them).",
-    "technique": "rapid property-based testing against an independent reference implementation of masked update + frame-condition invariant",
+    "technique": "rapid property-based testing against an independent reference implementation of masked update + frame-condition invariant (+ native coverage-guided fuzzing with the same oracle in the thorough tier)",
 }
 META["C06"] = {
     "text": ("Property-based testing of every read entry point against an independent projection: rapid draws (message, mutated second message, read mask) over the "
@@ -44,14 +44,14 @@ META["C17"] = {
              "cancellation-aware members. The oracle evaluates the documented strategy contract on (outcomes, order) and checks verdict, first-observed error, result indexes, "
              "ExecuteOne's run-nothing-after-success, cancellation exactly once the outcome is decided, no panic and no pkg/group goroutine left behind."),
     "note": "Goroutine exit is observed through runtime.Stack; a member's context is sampled when the member is released (a wrongly early cancel that has not yet been executed at that instant can be missed, never falsely reported).",
-    "technique": "bounded-exhaustive enumeration with harness-owned completion order + rapid property-based testing against the strategy contract",
+    "technique": "bounded-exhaustive enumeration with harness-owned completion order + rapid property-based testing against the strategy contract, on pkg/group and on the trait groups built on it",
 }
 META["C15"] = {
     "text": ("Property-based testing of all seven paged List RPCs: rapid draws collection sizes (0-60, 49-51, 999-1001), ids with prefix/case/unicode relations and page sizes, follows "
              "next_page_token from the first page under a page-count bound and compares the concatenation with the expected full listing (order, no loss, no duplicate, page size cap, "
              "total_size); negative page sizes must be answered with an error and malformed tokens with an error or a well-formed terminating chain, never a panic. "
              "Thorough tier adds a native fuzz target over page tokens."),
-    "note": "Servers are called directly so panics are attributable; contents are held fixed while paging; read masks are not combined with paging; one pager runs a parent model configured with a case-folding id interceptor.",
+    "note": "Servers are called directly so panics are attributable; contents are held fixed while paging; every walk is repeated under a drawn read mask (item identity compared on the fields the mask keeps; whether the mask is applied at all is not judged here); one pager runs a parent model configured with a case-folding id interceptor.",
     "technique": "rapid property-based testing against the sorted-listing model + hostile token/page-size generation (+ native fuzzing of tokens in the thorough tier)",
 }
 META["C01"] = {
@@ -68,7 +68,7 @@ META["C04"] = {
              "updates-only / read mask / WithNoDuplicates settings. After a sentinel write every subscription's log must equal the reference edit script exactly: count, order, id, kind, "
              "old and new value (under the read mask), seed and last-seed flags, and change time (exact when a write time is given, otherwise inside the fake clock's tick interval of the call)."),
     "note": "Trusts the reference store and event model (rlib); one writer at a time; consumers always receive; with an updates-only subscription and an equivalence, a first write that leaves the masked value unchanged is unspecified and ends the comparison for that subscription.",
-    "technique": "model-based history testing with rapid: exact event-log equality against a reference edit script, sentinel-synchronised",
+    "technique": "model-based history testing with rapid + bounded-exhaustive history enumeration: exact event-log equality against a reference edit script, sentinel-synchronised",
 }
 META["C08"] = {
     "text": ("Truth-table enumeration x generated histories: all 256 predicates over (id in {a,b}) x (value in {absent,v1,v2,v3}), including predicates true for absent values, are run with "
@@ -84,7 +84,7 @@ META["C09"] = {
              "merge of that id's pending changes (ADD.REMOVE cancels, REMOVE.ADD -> REPLACE, old values chain), nothing extra is delivered and the folded view equals the store; DropExcess must "
              "hand over exactly the latest message. API level (rapid): lossy Value/Collection Pull with scripted consumer pacing - every write returns within a 5 s guard, the folded view "
              "converges after a sentinel, old values chain; backpressured writer and consumer stay in lock-step with nothing dropped; one real-time case checks the five-second send timeout."),
-    "note": "The in-package test is overlaid into pkg/resource at check time; waits are bounded at 5 s (three orders of magnitude above observed latency); the send-timeout case takes ~5 s of real time and accepts 4-9 s.",
+    "note": "The in-package test is overlaid into pkg/resource at check time; waits are bounded at 5 s (three orders of magnitude above observed latency); the send-timeout case takes ~5 s of real time and accepts 4-9 s; the slow-consumer case pauses a backpressured Collection subscriber for 6.5 s of real time.",
     "technique": "bounded-exhaustive schedule/script enumeration against an independent merge model + rapid API-level pacing tests with fold/chain oracles",
 }
 META["C02"] = {
@@ -121,7 +121,7 @@ META["C07"] = {
              "event new/old values, seeds - is registered together with a deep copy and re-compared after every later operation; every message handed to a write is overwritten in all fields right "
              "after the call and the contents re-compared (against the reference model for the core resources); read-only operations (Get, List, opening a Pull and receiving its seed) must leave the "
              "stored state, read through an independent path, unchanged."),
-    "note": "The harness never writes to a message it obtained from a read; model operations that panic are not judged here (C20); trait models that merely wrap one resource.Value are covered through the core resources.",
+    "note": "The harness never writes to a message it obtained from a read; model operations that panic are not judged here (C20); every model discovered in pkg/trait is additionally driven reflectively through each public method whose Go signature can be generated; methods with interface/func parameters are skipped (listed in the evidence notes).",
     "technique": "stateful property testing (rapid) with a deep-copy snapshot registry and input scribbling; differential against the reference store for the core resources",
 }
 META["C19"] = {
@@ -130,7 +130,7 @@ META["C19"] = {
              "After every step (at quiescence when concurrent) the documented invariants are checked: at most one normal mode, active mode exists once changed and is never deleted, clear-active selects "
              "the normal mode (NotFound and no change without one), a switch to a different id stamps the fake clock's reading of that call, deleting an absent mode gives NotFound unless allow-missing."),
     "note": "Only invariants are asserted where the statement leaves the exact result open (how a second normal mode is refused); re-selecting the already active mode is not asserted to keep the start time; the concurrent variant judges only executed schedules.",
-    "technique": "bounded-exhaustive operation sequences + rapid stateful sequences + concurrent stress, invariant oracle with a fake clock",
+    "technique": "bounded-exhaustive operation sequences + rapid stateful sequences + concurrent stress and aligned duels, invariant oracle with a fake clock",
 }
 META["C20"] = {
     "text": ("Per-model stateful property testing against small executable specifications with random configurations: set algebra over trait names for the parent model; exact unit arithmetic "
